@@ -16,6 +16,26 @@ for d in sorted(glob.glob(os.path.join(ROOT, "seeded", "*", "meta.json"))):
             if line and not line.startswith("#") and len(line) > 30:
                 desc = re.sub(r"\s+", " ", line)[:220]
                 break
+    # complete the record seed_eval.sh writes: the property the change was written against, what it needs to
+    # manifest (from the author's README), and what was run to confirm it
+    changed = False
+    if "property" not in m:
+        m["property"] = re.search(r"C\d\d", sid).group(0)
+        changed = True
+    if "needs_to_manifest" not in m and os.path.exists(readme):
+        lines = [l.strip() for l in open(readme).read().splitlines()]
+        need = [l for l in lines if re.search(r"(?i)needed|manifest|trigger|failing input", l) and not l.startswith("#")][:3]
+        m["needs_to_manifest"] = need
+        changed = True
+    if "ran" not in m:
+        m["ran"] = ["cargo test --workspace --no-fail-fast --offline (with the change: must pass)",
+                    "cargo test --offline --test seed_demo (demo.rs: fails with the change, passes without)",
+                    "VERIF_REPO=<worktree with the change> ./check <property> --tier quick  (verdicts under 'checks')"]
+        changed = True
+    if changed:
+        with open(d, "w") as f:
+            json.dump(m, f, indent=1)
+            f.write("\n")
     conf = m.get("confirmed", {})
     ok = conf.get("demo_passes_on_clean", 0) >= 1 and conf.get("demo_fails_on_mutant", 0) >= 1 and "80 passed" in conf.get("suite_with_mutant", "")
     checks = "; ".join("%s: %s%s (%ds)" % (c["property"], c["verdict"],
